@@ -52,6 +52,52 @@ def c01rh (a : List String) (obs : String) : String × String :=
     (model, verdict)
   | _ => ("BADOP", "skip")
 
+def rhsIter (rd : Src → Except HdrErr Header × Src) (total : Nat) : Nat → Src → List String → List String
+  | 0, _, acc => acc.reverse
+  | n + 1, s, acc =>
+    let r := rd s
+    let item := rhRes total r
+    match r.1 with
+    | .ok _ => rhsIter rd total n r.2 (item :: acc)
+    | .error _ => (item :: acc).reverse
+
+/-- Each observed item against §5.2 at the offset where the previous header ended. -/
+def rhsJudge (bs : Bytes) : Nat → Nat → List String → Option String
+  | _, 0, [] => none
+  | _, _ + 1, [] => some "fewer-headers-than-asked"
+  | _, 0, _ :: _ => some "more-headers-than-asked"
+  | off, n + 1, it :: rest =>
+    let f := it.splitOn ","
+    match rfcDecode (bs.drop off) with
+    | .ok h k =>
+      let exp := s!"ok,{hdrStr h},{off + k}"
+      if it != exp then some s!"expected:{exp}" else rhsJudge bs (off + k) n rest
+    | .msb => if f.take 2 == ["err", "msb"] ∧ rest.isEmpty then none else some "expected:err,msb"
+    | .incomplete =>
+      if f.head? == some "err" ∧ (f.getD 1 "" == "eof" ∨ f.getD 1 "" == "ueof" ∨ f.getD 1 "" == "fail") ∧ rest.isEmpty
+      then none else some "expected:err(incomplete)"
+
+def c01rhs (a : List String) (obs : String) : String × String :=
+  match a with
+  | [hex, k, fin, n] =>
+    let s := mkSrc hex k fin
+    let total := s.bytes.length
+    let n := natOr n
+    let w := "|".intercalate (rhsIter readHeaderWs total n s [])
+    let u := "|".intercalate (rhsIter readHeaderUtil total n s [])
+    let verdict :=
+      match obs.splitOn " " with
+      | [ow, ou] =>
+        if ¬ (ow.startsWith "W:" ∧ ou.startsWith "U:") then "bad:format" else
+        let ow := (ow.drop 2).toString; let ou := (ou.drop 2).toString
+        if ow != ou then "bad:decoders-disagree" else
+        match rhsJudge s.bytes 0 n (ow.splitOn "|") with
+        | none => "ok"
+        | some e => s!"bad:{e}"
+      | _ => "bad:format"
+    (s!"W:{w} U:{u}", verdict)
+  | _ => ("BADOP", "skip")
+
 def c01wf (a : List String) (obs : String) : String × String :=
   match a with
   | [f, r, o, m, k, p] =>
